@@ -57,3 +57,27 @@ Example C04_active_catch_example :
   fst (run 4000 bootstrap_db (Cmp "catch" [Cmp "throw" [Atom "x"]; Var 1; Cmp "=" [Var 0; Atom "caught"]]) [0] 10)
   = [[Atom "caught"]].
 Proof. vm_compute. reflexivity. Qed.
+
+(** The same on the trampoline itself (with Proofs/ForceComplete.v). *)
+From PV Require Import Proofs.FuelMono Proofs.ForceComplete.
+Theorem C04_force_uncaught :
+  forall p e xs stack st st1,
+    Eval p st (VErr e xs) st1 -> e <> EFuel ->
+    (forall pre q0 post, stack = pre ++ q0 :: post ->
+       p_exited q0 <> None \/ handles q0 e (fold_left (fun acc x => pass x acc) pre xs) = None) ->
+    exists n, force n (p :: stack) st = (FError e, st1).
+Proof. exact force_uncaught. Qed.
+Print Assumptions C04_force_uncaught.
+
+Theorem C04_force_caught_innermost :
+  forall p e xs above q below st st1 recovery k env' f g st2 r st',
+    Eval p st (VErr e xs) st1 -> e <> EFuel ->
+    (forall pre q0 post, above = pre ++ q0 :: post ->
+       p_exited q0 <> None \/ handles q0 e (fold_left (fun acc x => pass x acc) pre xs) = None) ->
+    p_exited q = None ->
+    handles q e (fold_left (fun acc x => pass x acc) above xs) = Some (recovery, k, env') ->
+    call_goal f recovery k env' st1 = (g, st2) ->
+    Run (g :: below) st2 r st' -> r <> FOutOfFuel ->
+    exists n, force n (p :: above ++ q :: below) st = (r, st').
+Proof. exact force_caught_innermost. Qed.
+Print Assumptions C04_force_caught_innermost.
